@@ -31,7 +31,7 @@ fn main() {
     }
     let mut shapes: Vec<(String, &str)> = plain.iter().map(|w| (w.clone(), "plain")).collect();
     // the same members declared in other syntactic ways (decorations that must not change the meaning)
-    for dec in ["field-attributes", "struct-attributes", "visibility", "type-paths", "raw-identifiers", "macro-template"] {
+    for dec in ["field-attributes", "struct-attributes", "visibility", "type-paths", "raw-identifiers", "macro-template", "field-names"] {
         for w in words(3) {
             shapes.push((w, dec));
         }
@@ -50,6 +50,9 @@ fn main() {
             let fname = |j: usize| -> String {
                 if *dec == "raw-identifiers" {
                     format!("r#{}", ["type", "match", "fn", "loop", "move", "ref", "mod", "use"][j])
+                } else if *dec == "field-names" {
+                    // neither alphabetical nor uniformly prefixed; leading underscores; upper case; unicode
+                    ["zeta", "_hedge", "alpha", "Maker", "__x", "mid_9", "béta", "a0"][(j + i) % 8].to_string() + &format!("{}", if j >= 8 { "2" } else { "" })
                 } else {
                     format!("f{j}")
                 }
@@ -71,6 +74,7 @@ fn main() {
                 _ => {
                     match *dec {
                         "struct-attributes" => writeln!(s, "#[allow(dead_code)]\n#[derive({mac})]\n#[doc = \"decorated\"]\n#[allow(clippy::all)]\npub struct {name} {{").unwrap(),
+                        "field-names" => writeln!(s, "#[allow(non_snake_case)]\n#[derive({mac})]\npub struct {name} {{").unwrap(),
                         _ => writeln!(s, "#[derive({mac})]\npub struct {name} {{").unwrap(),
                     }
                     for (j, k) in w.chars().enumerate() {
